@@ -105,6 +105,10 @@ def check_single(case, ev):
     if not out.startswith(lead_ws) or not out.endswith(tail_ws) or out[len(lead_ws) : len(out) - len(tail_ws) or None].strip() != out.strip():
         return Finding("context/outer-whitespace-changed", "%r -> %r" % (line, out), case)
     shift = len(lead_ws)
+    if form.mode in ("scrub", "either") and S.SCRUB in out:
+        if v in out.replace(S.SCRUB, " "):
+            return Finding("context/secret-kept-in-scrubbed-line", "%r -> %r" % (line, out), case)
+        return None
     rs = S.extract_replacements(line.strip(), [(a - shift, b - shift) for a, b in spans], out.strip())
     if rs is None:
         return Finding("context/text-around-secret-changed:%s" % ("enclosed" if enc else "bare"), "%r -> %r" % (line, out), case)
@@ -164,12 +168,13 @@ def check_pair(case, ev):
 REPLAY = {"single": check_single, "grid": check_single, "pair": check_pair}
 
 _FORMS1 = [f for f in S.POS_FORMS if f.slots == 1]
+_FORMS_ALL1 = [f for f in S.FORMS if f.slots == 1]
 _salts = st.one_of(st.sampled_from(["Tsalt", "", "s", "_x", "QzF", "iH", "s@lty", "a_b", "n+1", "1!", "é"]), st.text(max_size=6), st.sampled_from(J.ALPHABET))
 
 
 @st.composite
 def _case(draw):
-    form = draw(st.sampled_from(_FORMS1))
+    form = draw(st.sampled_from(_FORMS1 if draw(st.integers(0, 4)) else _FORMS_ALL1))
     c, v = draw(S.secret_for(form))
     if c == "j9" and draw(st.integers(0, 2)) == 0:
         # plaintexts over all code points 1..255 (control characters, NBSP, DEL, ...), lengths up to 64
